@@ -188,6 +188,8 @@ def generate(rng, tier, idx):
         sc['level'] = 'text'
         n = rng.choice([0, 1, 2, 3, 4, 5, 5, 6, 6, 7, 7, 8, 8, 9, 10, 12])
         sc['text'] = gen_text(rng, n, ascii_only=rng.random() < 0.6)
+        if rng.random() < 0.25:
+            sc['seekable'] = True      # the text stream also offers tell() / seek(), as io.StringIO and text files do
     elif r < 0.93:
         sc['level'] = rng.choice(['utf-8', 'utf-8', 'latin-1'])
         n = rng.choice([1, 2, 3, 4, 4, 5, 5, 6, 7, 8])
@@ -324,7 +326,7 @@ def read_case(t, sc, pieces, chunk_size, stats=None):
     if sc.get('entry') in ('sample_lines', 'sample_records', 'join_registry'):
         return read_via_entry(t, sc, pieces, stats)
     if level == 'text':
-        stream = SimTextSource(sc['text'], pieces)
+        stream = SimTextSource(sc['text'], pieces, seekable=bool(sc.get('seekable')))
         enc = None
     else:
         stream, raw = make_byte_input(scenario_bytes(sc), pieces, sc.get('bufsize', 8192), sc.get('shape', 'plain'))
@@ -512,7 +514,7 @@ def execute(sc):
     res = {'verdict': 'ok', 'oracle': None, 'counters': counters, 'evals': 0, 'nontrivial': 0, 'steps': 0}
     if sc['kind'] == 'batch':
         res['key'] = core.key64([sc['level'], sc['text'], sc['policy'], sc['delim'], sc['comment_prefix'], sc['has_header'], sc['line_mode'],
-                                 sc.get('shape'), sc.get('bufsize'), sc.get('entry'), sc.get('num_rows'), sc.get('bad_hex'), sc.get('bad_at')])
+                                 sc.get('shape'), sc.get('bufsize'), sc.get('entry'), sc.get('num_rows'), sc.get('bad_hex'), sc.get('bad_at'), sc.get('seekable')])
     else:
         res['key'] = core.key64(sc)
     if model_view(ref) != model_view(model):
@@ -641,7 +643,7 @@ def shrinks(sc):
         c['pieces'] = pieces[:i] + [pieces[i] + pieces[i + 1]] + pieces[i + 2:]
         yield c
     # default knobs
-    for k, v in (('comment_prefix', None), ('has_header', False), ('line_mode', False), ('shape', 'plain'), ('bufsize', 8192), ('chunk_size', 1024), ('entry', None)):
+    for k, v in (('comment_prefix', None), ('has_header', False), ('line_mode', False), ('shape', 'plain'), ('bufsize', 8192), ('chunk_size', 1024), ('entry', None), ('seekable', False)):
         if k in sc and sc[k] != v:
             c = dict(sc)
             c[k] = v
